@@ -14,7 +14,7 @@ def check_model(prop, table, tier, seed):
     return M.run(prop, table, tier, seed)
 
 
-def report(prop, results, mc, table, tier, seed, t0, assumptions):
+def report(prop, results, mc, table, tier, seed, t0, assumptions, evidence=True):
     hits = []
     for r in results:
         for v in r["violations"]:
@@ -80,5 +80,7 @@ def report(prop, results, mc, table, tier, seed, t0, assumptions):
     }
     if mc:
         cov["design_model"] = {k: v for k, v in mc.items() if k != "violations"}
+    if not evidence:
+        return rc, cov, len(hits)
     C.write_evidence(prop, tier, seed, "model_checking", cov, assumptions, time.time() - t0, len(hits))
     return rc
